@@ -312,6 +312,13 @@ def _add(bundle: Bundle, val: BundleAttr) -> BundleAttr:
         msg = f"Invalid Bundle attribute {val} for {bundle}"
         raise TypeError(msg)
 
+    # Each attribute has a single name. If we hold `val` under another name already, that name is given up.
+    for key in [k for k, v in bundle.namespace.items() if v is val and k != val.name]:
+        bundle.namespace.pop(key)
+        for ctr in (bundle.signals, bundle.bundles):
+            if ctr.get(key, None) is val:
+                ctr.pop(key)
+
     # Each name denotes a single attribute. Remove any prior holder of the name, of whatever type.
     bundle.signals.pop(val.name, None)
     bundle.bundles.pop(val.name, None)
